@@ -568,6 +568,17 @@ fn process_world(ctx: &Ctx, scn: &Scn, pp: &ProcPart, ex: &mut Exec, fp: &mut Fn
         return Some(v);
     }
     if o2.exit != Some(0) {
+        // outputs that weight an AUX split and do not print exactly (0.004 kWh is saved as 0.00): the saved system may be
+        // one whose auxiliaries cannot be attributed any more - outside the claim, as in the library world
+        let c1: Option<Components> = disk.read("r1.json").and_then(|b| serde_json::from_slice::<Value>(&b).ok()).and_then(|r| r.get("components").cloned()).and_then(|v| serde_json::from_value(v).ok());
+        let lossy_weights = c1
+            .as_ref()
+            .map(|c| c.data.iter().any(|e| e.is_aux()) && !c.data.iter().filter(|e| e.is_out()).all(|e| e.values().iter().all(|v| same_f32(printed2(*v), *v))))
+            .unwrap_or(false);
+        if lossy_weights && o2.exit == Some(65) {
+            ex.count("result_comparisons_skipped(cogeneration or AUX-weight values lose precision)", 1);
+            return None;
+        }
         return Some(Violation::new(
             "roundtrip_result",
             "second-run-fails",
@@ -596,6 +607,32 @@ fn process_world(ctx: &Ctx, scn: &Scn, pp: &ProcPart, ex: &mut Exec, fp: &mut Fn
         (Some(a), Some(b)) => (a, b),
         _ => return Some(Violation::new("roundtrip_result", "json-missing", format!("{}: result documents missing or invalid", what2))),
     };
+    // the factor sets of the two evaluations: a factor that both have must carry the same comment (tags and
+    // comments are data, C18) - whatever the re-evaluation does to the values is judged below through the results
+    {
+        let fs = |r: &Value| -> Option<Factors> { r.get("wfactors").cloned().and_then(|v| serde_json::from_value(v).ok()) };
+        if let (Some(f1), Some(f2)) = (fs(&r1), fs(&r2)) {
+            let first = |f: &Factors| {
+                let mut m: BTreeMap<String, String> = BTreeMap::new();
+                for w in &f.wdata {
+                    m.entry(format!("{}, {}, {}, {}", w.carrier, w.source, w.dest, w.step)).or_insert_with(|| w.comment.trim().to_string());
+                }
+                m
+            };
+            let (m1, m2) = (first(&f1), first(&f2));
+            for (k, c1) in &m1 {
+                if let Some(c2) = m2.get(k) {
+                    if c1 != c2 {
+                        return Some(Violation::new(
+                            "roundtrip_factor",
+                            "comment",
+                            format!("{}: the factor `{}` carries the comment {:?} in the original evaluation but {:?} when the saved files are evaluated", what2, k, c1, c2),
+                        ));
+                    }
+                }
+            }
+        }
+    }
     // precision slack from the first result's own components
     let c1: Option<Components> = r1.get("components").and_then(|v| serde_json::from_value(v.clone()).ok());
     let (imprecise, _) = c1.as_ref().map(imprecise_counts).unwrap_or((0.0, 0.0));
